@@ -749,7 +749,7 @@ func TestVerifC18(t *testing.T) {
 	// The live heap is tiny and the allocation rate huge (every apply clones the state several
 	// times): collect by memory limit instead of by growth ratio.
 	defer debug.SetGCPercent(debug.SetGCPercent(-1))
-	defer debug.SetMemoryLimit(debug.SetMemoryLimit(3 << 30))
+	defer debug.SetMemoryLimit(debug.SetMemoryLimit(768 << 20))
 	defer func() {
 		for _, d := range c18Cleanup {
 			os.RemoveAll(d)
